@@ -40,7 +40,9 @@ func intVals(lo, hi *big.Int) []string {
 	cands := []string{"0", "1", "2", "-1", "-2", "9", "10", "100", "127", "128", "255", "256", "-128", "-129",
 		"32767", "65535", "65536", "2147483647", "4294967295", "4294967296", "-2147483648",
 		"9007199254740992", "9007199254740993", "-9007199254740993", "9223372036854775807", "-9223372036854775808",
-		"18446744073709551615"}
+		"18446744073709551615",
+		// neighbours that collide once rounded to float64: only an exact integer comparison separates them
+		"-9007199254740992", "-9223372036854775807", "9223372036854775806", "18446744073709551614"}
 	seen := map[string]bool{}
 	var out []string
 	add := func(s string) {
@@ -78,7 +80,8 @@ func c15Domain(tier string) []gv {
 		if tier == "quick" {
 			// quick: a representative subset per kind (still every kind, still the edges)
 			keep := map[string]bool{k.lo: true, k.hi: true, "0": true, "1": true, "-1": true, "10": true, "9": true,
-				"9007199254740993": true, "9007199254740992": true, "-9007199254740993": true}
+				"9007199254740993": true, "9007199254740992": true, "-9007199254740993": true,
+				"-9007199254740992": true, "-9223372036854775807": true, "9223372036854775806": true, "18446744073709551614": true}
 			var v2 []string
 			for _, v := range vals {
 				if keep[v] {
